@@ -18,6 +18,7 @@
      serves st s i    = Peek(s) would return (i, true)
      positive_entry (s,h) = h_inst h is an instance;  negative_entry (s,h) = h_inst h is nil *)
 From GS Require Import Base.Bytes Base.LTS Model.InstanceCache Proofs.InstanceCache.
+From GS Require Import Model.InstanceDispatcher Proofs.InstanceDispatcher.
 From stdpp Require Import gmap.
 Local Open Scope Z_scope.
 
@@ -114,3 +115,85 @@ Theorem C12_gauges :
      gauge_neg st = Z.of_nat (size (filter negative_entry (cache st)))).
 Proof. exact gauges. Qed.
 Print Assumptions C12_gauges.
+
+(* ---- the lookup dispatcher loop as written (Model/InstanceDispatcher.v) ---------------------------------
+
+   The model above abstracts cloudProviderLookupDispatcher.run to "any non-empty batch of at most limit sources
+   may be looked up".  [dstep lim] is the loop itself: DRecv ip (append; leave the select iff
+   len(ips) >= limit, else arm the 10 ms timer) | DTimer (an armed timer fires) | DLimit / DLimitErr (limiter.Wait
+   returns nil / an error: run returns) | DCall res err | DSend | DAbandon (doLookup sees ctx.Done) | DCancel |
+   DStop (run sees ctx.Done).  [cstep c] runs this loop together with the Run side of the model: CSubmit,
+   CSendLookup, CCall, CHandle are joint steps, CTimer / CLimit are the loop's own, CReturn / CRefresh / CPeek
+   are Run's own; [cproj] maps them to the abstract labels (CTimer, CLimit to nothing).  [cstep] has no
+   cancellation and no limiter failure. *)
+
+(* Every history of Run + the real loop, without cancellation, is -- after erasing timer and limiter steps -- a
+   history of the abstract model ending in the same state, so the seven theorems above hold of it; the abstract
+   dispatcher component is exactly the loop's ips / unsent answers / provider calls, and every provider call has
+   between 1 and limit sources (1 for a limit <= 0). *)
+Theorem C12_dispatcher_refines :
+  forall (c : config) (cls : list clabel) (st : state) (d : dstate),
+    run (cstep c) (init, d_init (c_limit c)) cls = Some (st, d) ->
+    run (step c) init (omap cproj cls) = Some st /\
+    pending st = d_ips d /\ inflight st = d_tosend d /\ batches st = d_calls d /\
+    Forall (λ b, 1 <= Z.of_nat (length b.1.1) <= Z.max 1 (c_limit c)) (batches st).
+Proof. exact dispatcher_refines. Qed.
+Print Assumptions C12_dispatcher_refines.
+
+(* [cstep] demands that the abstract model allows the joint step as well; it never is the abstract model that
+   refuses: whenever the loop can take its part [dl] of a step (and for CSendLookup Run's register is full:
+   [dpart] is then defined), the joint step exists.  So no behaviour of the loop is excluded by the abstraction. *)
+Theorem C12_dispatcher_never_blocked :
+  forall (c : config) (cls : list clabel) (st : state) (d : dstate) (cl : clabel) (dl : dlabel) (d' : dstate),
+    run (cstep c) (init, d_init (c_limit c)) cls = Some (st, d) ->
+    dpart st cl = Some dl -> dstep (c_limit c) d dl = Some d' ->
+    exists st', cstep c (st, d) cl = Some (st', d').
+Proof. exact dispatcher_never_blocked. Qed.
+Print Assumptions C12_dispatcher_never_blocked.
+
+(* In EVERY history of the loop -- cancellations and limiter failures included -- no provider call has more
+   than limit sources (nor fewer than one); with a negative limit the loop panics at once and calls nothing. *)
+Theorem C12_dispatcher_batch_bound :
+  forall (lim : Z) (ls : list dlabel) (d : dstate),
+    run (dstep lim) (d_init lim) ls = Some d ->
+    Forall (λ b, 1 <= Z.of_nat (length b.1.1) <= Z.max 1 lim) (d_calls d) /\
+    (1 <= lim -> Forall (λ b, 1 <= Z.of_nat (length b.1.1) <= lim) (d_calls d)) /\
+    (lim < 0 -> d_calls d = [] /\ d_received d = []).
+Proof. exact dispatcher_batch_bound. Qed.
+Print Assumptions C12_dispatcher_batch_bound.
+
+(* What cancellation does.  In every history of the loop: each received source has been a position of a provider
+   call, is still in ips, or was DROPPED (never queried, never answered) when run returned; each answer doLookup
+   owes has been sent, is still to be sent, or was ABANDONED when doLookup saw ctx.Done.  Sources are dropped
+   only by run returning, answers are abandoned only after a cancellation, a stopped loop does nothing more; and
+   a history without DCancel / DStop / DAbandon / DLimitErr drops and abandons nothing and never stops. *)
+Theorem C12_dispatcher_cancel :
+  forall (lim : Z) (ls : list dlabel) (d : dstate),
+    run (dstep lim) (d_init lim) ls = Some d ->
+    d_received d ≡ₚ d_queried d ++ d_ips d ++ d_dropped d /\
+    d_due d ≡ₚ d_sent d ++ d_tosend d ++ d_abandoned d /\
+    (d_dropped d <> [] -> d_phase d = DStopped) /\
+    (d_abandoned d <> [] -> d_cancelled d = true) /\
+    (d_phase d = DStopped -> d_ips d = [] /\ d_tosend d = [] /\ forall l, l <> DCancel -> dstep lim d l = None) /\
+    (Forall (λ l, d_fault l = false) ls ->
+     d_dropped d = [] /\ d_abandoned d = [] /\ d_cancelled d = false /\ d_phase d <> DStopped).
+Proof. exact dispatcher_cancel. Qed.
+Print Assumptions C12_dispatcher_cancel.
+
+(* The boundary of "every submitted source is queried and answered": at shutdown it fails.  A source the
+   dispatcher had received is dropped without query or answer when the context is cancelled while it waits in
+   the select (limit > 1) or in the limiter (limit 1); the answers of a provider call that doLookup has not sent
+   yet are abandoned.  (C12 quantifies over submissions, provider outcomes, cache reads, clock advances and batch
+   limits -- not over shutdown; this is the documented limit of the property, not a violation of it.) *)
+Theorem C12_dispatcher_cancel_boundary :
+  (forall lim s, 1 < lim -> exists d,
+     run (dstep lim) (d_init lim) [DRecv s; DCancel; DStop] = Some d /\
+     d_phase d = DStopped /\ d_received d = [s] /\ d_calls d = [] /\ d_dropped d = [s]) /\
+  (forall s, exists d,
+     run (dstep 1) (d_init 1) [DRecv s; DCancel; DLimitErr] = Some d /\
+     d_phase d = DStopped /\ d_received d = [s] /\ d_calls d = [] /\ d_dropped d = [s]) /\
+  (forall s, exists d,
+     run (dstep 1) (d_init 1) [DRecv s; DLimit; DCall [] false; DCancel; DAbandon; DStop] = Some d /\
+     d_phase d = DStopped /\ d_queried d = [s] /\ d_sent d = [] /\ d_abandoned d = [(s, None)]).
+Proof. exact dispatcher_cancel_boundary. Qed.
+Print Assumptions C12_dispatcher_cancel_boundary.
